@@ -39,14 +39,20 @@ C = {
          "lists lexicographically; ghost first-difference function fd (definitional axioms); A-EVENT / A-ABORT / A-POS-SETTER / A-ACTIONABLE / "
          "A-REGISTERED (callees of the per-head step are assumed by frame); the composition of the blocks over the two loops of the function, the "
          "single-head shortcut and what _abort_flow then does are bounded only"),
- "C06": ("the step at which a flow that ends lets go of one of its actions (body of the action loop of _abort_flow and of _finish_flow, block "
+ "C06": ("the step at which a flow that ends deals with ONE child (body of the child loop of _abort_flow and of _finish_flow: a child that is not an "
+         "activated successor of the same flow gets exactly one _abort_flow(.., deactivate_flow=True), a missing or self-activated one none), the "
+         "restart step (exactly one StartFlow pushed to the left end of the queue, with the right source instance, iff the flow is activated, not "
+         "being deactivated and has no successor yet; else nothing), _is_child_activated_flow / _is_reference_activated_flow; and "
+         "the step at which a flow that ends lets go of one of its actions (body of the action loop of _abort_flow and of _finish_flow, block "
          "contracts; Action.stop_event): an action that is STARTING / STARTED and held by this flow alone gets exactly one event, its own Stop "
          "(`Stop<name>`, same action_uid); one that another flow still holds only loses a reference (no event, status kept); one that was never "
          "started, is already stopping or has finished gets no event and is not touched - for every action object and every count",
          "flow / action lifetimes through the real interpreter with a passive monitor on _abort_flow/_finish_flow/start requests: children stopped, exactly one "
          "Stop per unfinished unshared action, activated flows restarted while an activator runs",
          "A-UMIM: _generate_umim_event(state, e) appends to state.outgoing_events and lets only the action registered under e.action_uid process the "
-         "event (assumed frame); the loops over children / actions, the recursion over the flow hierarchy, activation and restart are bounded only"),
+         "event (assumed frame); the recursive _abort_flow call on a child is opaque (induction over the hierarchy in prose), FlowState.start_event / "
+         "_push_left_internal_event are assumed by frame; the loops around the per-child / per-action steps, the deactivate branch and what happens "
+         "to the queued StartFlow are bounded only"),
  "C07": ("normalize_element_groups / flatten_or_group: for every and/or group and every valuation of the leaves the result is one `or` of `and`s of leaves and is "
          "satisfied only if the original formula is (unbounded depth/width)",
          "converse direction; `match <group>` completes at exactly the first satisfying event (real interpreter, all short event sequences)",
